@@ -357,7 +357,7 @@ func c21Release(c *engine.Ctx, rule string, tqFns []*ssa.Function) {
 				return engine.C1
 			}
 			return 0
-		}})
+		}, Deep: true})
 		ok := true
 		bad := ""
 		n := 0
